@@ -84,6 +84,8 @@ def check_prefix(prefix, d, how='list'):
     want = base + [m]
     if len(got) != len(want) or any(not (a == b) for a, b in zip(got, want)):
         return [fail('resync', f'prefix={prefix[:16]} + {d}: got {got!r} expected {want!r}', type=d['type'])]
+    for x in got:
+        x.time = 0.25           # the caller stamps what it received; later parses must not see this
     return []
 
 
@@ -119,6 +121,10 @@ def check_rt_sysex(payload, inserts, how='list'):
     if len(got) != len(want) or any(not (a == b) for a, b in zip(got, want)):
         return [fail('rt-in-sysex', f'sysex {payload[:8]} inserts={inserts[:6]}: got {got!r}',
                      rt='%02X' % (rts[0] if rts else 0))]
+    if len({id(x) for x in got}) != len(got):
+        return [fail('rt-in-sysex', f'sysex {payload[:8]} inserts={inserts[:6]}: the same object was delivered twice')]
+    for x in got:
+        x.time = 0.5
     return []
 
 
